@@ -23,11 +23,11 @@ from wbgen import a1
 
 NAME = 'loadsim'
 # probes that count as injected disturbances (reported under faults_fired in the evidence)
-FAULT_PROBES = ('clock_stepped_backward', 'foreign_tool_left_cache_entry', 'rewrite_inside_one_timestamp_quantum_cache_entry_still_matches', 'pycache_directory_blocked', 'relative_path_after_chdir')
+FAULT_PROBES = ('clock_stepped_backward', 'foreign_tool_left_cache_entry', 'rewrite_inside_one_timestamp_quantum_cache_entry_still_matches', 'pycache_directory_blocked', 'relative_path_after_chdir', 'symlink_repointed')
 NEEDS_REF = False
 BASE_NS = 1_718_000_000 * 10**9
 RULE = {'': 'one run = 2-4 variants of one generated workbook x a seeded history of 6-20 operations (translate+write to one of 2-3 '
-            'output paths, load the path into a fresh Executor and query every cell, clock jumps forward/backward) x a file-timestamp '
+            'output paths (absolute, relative after a chdir, or through a symlink that is re-pointed), load the path into a fresh Executor and query every cell, clock jumps forward/backward) x a file-timestamp '
             'granularity and bytecode-cache configuration; non-trivial = some path is rewritten with another variant and loaded '
             'again; distinct = distinct plan digests among those'}
 ASSUMPTIONS = {'': ['decides only the file-vs-class-object clause of C06 (totality over arbitrary workbooks is not claimed)',
@@ -105,6 +105,7 @@ def gen_plan(seed, cfg):
     re_ = core.rng(seed, 'loadsim', 'env')
     swarm['same_basename'] = re_.random() < 0.35
     swarm['relative'] = re_.random() < 0.35
+    swarm['symlink'] = re_.random() < 0.3
     swarm.update(cfg.get('swarm', {}))
     base = _base_workbook(r)
     variants = [base] + [_variant(r, base, swarm['same_size'] or r.random() < 0.5) for _ in range(r.randint(1, 3))]
@@ -131,6 +132,28 @@ def gen_plan(seed, cfg):
             ops.append({'op': 'clock', 'add_ns': d})
     for p in sorted(written):
         ops.append({'op': 'load', 'path': p})
+    if swarm['symlink']:
+        # the deployment idiom: a stable name ("current") that is re-pointed at one of the written files; loads go
+        # through the link.  Inserted after the plan was drawn so older seeds keep their write/load/clock skeleton.
+        out_ops = []
+        linked = None
+        w_so_far = set()
+        for op in ops:
+            out_ops.append(op)
+            if op['op'] == 'write':
+                w_so_far.add(op['path'])
+            if w_so_far and re_.random() < 0.35:
+                if linked is None or re_.random() < 0.5:
+                    linked = re_.choice(sorted(w_so_far))
+                    out_ops.append({'op': 'relink', 'to': linked})
+                out_ops.append({'op': 'load', 'path': linked, 'via_link': True})
+        if linked is not None:
+            others = sorted(w_so_far - {linked})
+            if others:
+                linked = re_.choice(others)
+                out_ops.append({'op': 'relink', 'to': linked})
+            out_ops.append({'op': 'load', 'path': linked, 'via_link': True})
+        ops = out_ops
     if swarm['relative']:
         for op in ops:
             if op['op'] in ('write', 'load') and re_.random() < 0.6:
@@ -213,7 +236,21 @@ def run(req, ctx):
         os.makedirs(os.path.dirname(p_), exist_ok=True)
     cwd0 = os.getcwd()
 
+    # the stable name: a directory link (current -> d<j>) when files share one name, else a file link (current.py -> gen<j>.py)
+    link = os.path.join(scratch, 'current' if swarm.get('same_basename') else 'current.py')
+    link_to = [None]
+
     def spelled(j, op):
+        if op.get('via_link'):
+            p_ = os.path.join(link, 'gen.py') if swarm.get('same_basename') else link
+            if op.get('rel'):
+                os.chdir(os.path.dirname(p_))
+                probe('relative_path_after_chdir')
+                return os.path.basename(p_)
+            return p_
+        return _spelled(j, op)
+
+    def _spelled(j, op):
         """The path as the caller spells it: absolute, or (after a chdir into its directory) the bare file name."""
         if op.get('rel'):
             os.chdir(os.path.dirname(paths[j]))
@@ -236,6 +273,15 @@ def run(req, ctx):
                 if op['add_ns'] < 0:
                     probe('clock_stepped_backward')
                 log.append({'i': i, 'op': 'clock'})
+            elif op['op'] == 'relink':
+                tgt = os.path.dirname(paths[op['to']]) if swarm.get('same_basename') else paths[op['to']]
+                tmp_link = link + '.new'
+                os.symlink(tgt, tmp_link)
+                os.replace(tmp_link, link)            # atomic re-point, as deployment tools do
+                if link_to[0] is not None and link_to[0] != op['to']:
+                    probe('symlink_repointed')
+                link_to[0] = op['to']
+                log.append({'i': i, 'op': 'relink', 'to': op['to']})
             elif op['op'] == 'foreign_compile':
                 j = op['path']
                 if j in current:
@@ -278,7 +324,11 @@ def run(req, ctx):
                 log.append({'i': i, 'op': 'write', 'out': out})
             elif op['op'] == 'load':
                 j = op['path']
-                if j not in current:
+                if op.get('via_link'):
+                    j = link_to[0]           # whatever the link points at NOW (minimisation may have dropped a relink)
+                    if j is not None:
+                        probe('load_through_symlink')
+                if j is None or j not in current:
                     log.append({'i': i, 'op': 'load', 'out': ['skipped']})
                     continue
                 wb, text = current[j]
@@ -304,6 +354,8 @@ def run(req, ctx):
                     rewritten_and_reloaded = True
                     probe('reload_after_rewrite_with_other_variant')
                 loaded_variant[j] = wb
+                if op.get('via_link') and probes.get('symlink_repointed'):
+                    rewritten_and_reloaded = True
                 log.append({'i': i, 'op': 'load', 'out': got})
                 if got != want:
                     diff = sorted(k for k in set(got) | set(want) if got.get(k) != want.get(k))
@@ -357,6 +409,12 @@ def shrink(plan):
         p = copy.deepcopy(plan)
         for o in p['ops']:
             o.pop('rel', None)
+        yield p
+    if any(o.get('via_link') for o in ops):
+        p = copy.deepcopy(plan)
+        for o in p['ops']:
+            o.pop('via_link', None)
+        p['ops'] = [o for o in p['ops'] if o['op'] != 'relink']
         yield p
     for k, v in (('reuse_parser', False), ('pycache_blocked', False), ('backward', False), ('same_basename', False)):
         if plan['swarm'].get(k) != v:
